@@ -254,9 +254,19 @@ fn wired(c: &ReplicaCase, ctx: &mut CaseCtx) -> Result<(), Fail> {
             if let Err(e) = r.sm.apply_block(blk) {
                 let cls = if e.to_string().contains("state_root") { "state-root" } else { "other" };
                 let pos = if h == 1 { "first-block" } else { "later-block" };
+                // which bookkeeping records differ between this replica and the leader?
+                let (mine, theirs) = (observe(&r.data), observe(&leader.store));
+                let differing: Vec<String> = mine
+                    .iter()
+                    .filter(|(k, f)| theirs.get(*k).is_some_and(|g| g != *f))
+                    .map(|(k, f)| {
+                        let g = &theirs[k];
+                        format!("{k}[{}]", f.iter().filter(|(n, v)| g.get(*n) != Some(*v)).map(|(n, _)| n.as_str()).collect::<Vec<_>>().join(","))
+                    })
+                    .collect();
                 ctx.fail(
                     format!("replica:wired:committed-block-rejected:{cls}:{pos}"),
-                    format!("replica {ri} (chain and state machine on one store, as ClusterOrchestrator wires them) refused block {h} committed by the leader: {e}"),
+                    format!("replica {ri} (chain and state machine on one store, as ClusterOrchestrator wires them) refused block {h} committed by the leader: {e}; records that differ from the leader's store: {differing:?}"),
                 )?;
                 return Ok(());
             }
